@@ -41,19 +41,21 @@ func runC15(c *core.Ctx) {
 	}
 	lockPairing(c, lc, "C15.pairing", handwritten)
 
+	dirSt, staging, services, lastID := directoryFields(c)
 	c.Doc("C15.guarded-by", "registry state (staging, services, lastID) only touched under serviceDirectory.mutex", 20)
-	for _, f := range []string{"staging", "services", "lastID"} {
-		guardedBy(c, lc, el, "C15.guarded-by", guardedField{Rel: rel, Struct: "serviceDirectory", Field: f, Mutex: "mutex",
+	for _, f := range []*types.Var{staging, services, lastID} {
+		if f == nil || dirSt == nil {
+			c.Undecided("C15.guarded-by", rel+".serviceDirectory", token.NoPos, "the registry state (two map[uint32]ServiceInfo tables and a uint32 counter) was not found")
+			return
+		}
+		guardedBy(c, lc, el, "C15.guarded-by", guardedField{Rel: rel, Struct: dirSt.Obj().Name(), Field: f.Name(), Var: f, Mutex: "mutex",
 			Reason: "the directory is used by its mailbox goroutine (remote requests) and directly by the hosting server through directoryNamespace/directorySession"})
 	}
 
-	staging := c.Field(rel, "serviceDirectory", "staging")
-	services := c.Field(rel, "serviceDirectory", "services")
-	lastID := c.Field(rel, "serviceDirectory", "lastID")
 	nameF := c.Field(rel, "ServiceInfo", "Name")
 	sidF := c.Field(rel, "ServiceInfo", "ServiceId")
-	if staging == nil || services == nil || lastID == nil || nameF == nil || sidF == nil {
-		c.Undecided("C15.id", rel+".serviceDirectory", token.NoPos, "anchor fields staging/services/lastID or ServiceInfo.Name/ServiceId not found")
+	if nameF == nil || sidF == nil {
+		c.Undecided("C15.id", rel+".ServiceInfo", token.NoPos, "ServiceInfo.Name / ServiceId not found")
 		return
 	}
 
